@@ -255,3 +255,30 @@ PROPS["C08"] = dict(
         "ages of deaths are only used when unambiguous (100ms away from the reclaim boundary and caused by an injected claim)",
     ],
 )
+
+PROPS["C16"] = dict(
+    title="Labels isolate logical clusters",
+    pkg="./props/c16",
+    level="exploration",
+    technique="property-based testing (rapid) + native coverage-guided fuzzing of the header codec round trip",
+    rule=("(a) codec: labels of 0-300 bytes (ascii, random, all-244), payloads of 0-9000 bytes incl. ones starting with the label magic byte; packet "
+          "round trip remove(add(p,l))=(p,l), every header prefix refused, labels >255 refused; stream round trip through an in-memory conn that fragments "
+          "writes into generated chunk sizes (1 byte .. 4097, so the header is split at every position) with optional latency. (b) isolation: a fresh real node "
+          "per case with label Lr from {'', a, ab, b, 255 x, 254 x + y}, SkipInboundLabelCheck on/off, encryption on/off (label as associated data), receives one "
+          "message (ping, indirect ping, alive, suspicion about itself, user packet; TCP ping, push/pull, reliable user message) under sender label Ls in a "
+          "single/compound/compressed/CRC carrier, optionally with a doubled header: when the header must not be accepted the outcome is nothing (no outbound "
+          "byte, no delegate call, membership and health unchanged, no stream reply), otherwise the normal effect is required. (c) two real clusters with "
+          "different labels on one network with cross join attempts and stray traffic never learn of each other. non-trivial = header split across fragments / "
+          "prefix, last-byte or skip-mode mismatches and all accepted cases / a cross-cluster attempt; thorough adds native fuzzing of (a)"),
+    tests=[
+        dict(name="pkt", run="^TestCodecPacket$", quick=dict(shards=2, checks=20000, timeout=300), thorough=dict(shards=4, checks=400000, timeout=1200)),
+        dict(name="stream", run="^TestCodecStream$", quick=dict(shards=4, checks=4000, timeout=300), thorough=dict(shards=6, checks=100000, timeout=1800)),
+        dict(name="iso", run="^TestIsolation$", quick=dict(shards=6, checks=800, timeout=600), thorough=dict(shards=6, checks=30000, timeout=3000)),
+        dict(name="two", run="^TestTwoClusters$", quick=dict(shards=4, checks=40, timeout=600), thorough=dict(shards=4, checks=1500, timeout=3000)),
+        dict(name="seedcorpus", kind="plain", run="^Fuzz", quick=dict(shards=1, timeout=300)),
+        dict(name="fuzzpkt", kind="fuzz", run="^FuzzLabelPacket$", thorough=dict(fuzztime="120s", timeout=400)),
+        dict(name="fuzzstream", kind="fuzz", run="^FuzzLabelStream$", thorough=dict(fuzztime="180s", timeout=500)),
+    ],
+    assumptions=PUPPET_ASSUMPTIONS + ["an unlabelled stream or packet never begins with the label magic byte 244 (all message types are < 14)",
+                                      "a second label header behind a valid, accepted one is a malformed payload (C13), not a labelling question"],
+)
